@@ -141,6 +141,7 @@ class RefStore:
             self.graveyard[old["value"]] = "overwritten"
         self.cookies[key] = {"value": value, "host_only": host_only, "secure": bool(sc.get("secure")),
                              "expiry": expiry, "domain": domain, "path": p, "name": sc["name"], "dontcare": dontcare}
+        self.graveyard.pop(value, None)  # a re-issued cookie may carry the value of the one it replaces
         self.expire(now)
 
     def clear(self) -> None:
@@ -226,6 +227,7 @@ def execute(case: dict) -> dict:
         jar = cj.CookieJar(**kwargs)
         ref = RefStore(unsafe, secure_origins)
         counter = 0
+        history: list = []  # (set-cookie dict with value, url) of every set op
         lattice = [(s, h, p) for h in HOSTS for s in SCHEMES for p in PATHS]
 
         def check_all(step: int, op) -> None:
@@ -276,6 +278,27 @@ def execute(case: dict) -> dict:
                     sc["expires"] = float(int(clock.now + sc.pop("expires_in")))
                 ref.set_cookie(sc, url, clock.now)
                 jar.update_cookies_from_headers([set_cookie_header(sc)], URL(f"{url[0]}://{url[1]}{url[2]}"))
+                history.append((sc, url))
+            elif kind == "reissue":
+                # the same cookie again (same name, value, path, attributes) from the same URL, but with the Domain attribute
+                # toggled between absent (host-only) and the request host (domain cookie): same storage key, other scope
+                if not history or is_ip(history[-1][1][1]):
+                    continue
+                sc0, url = history[-1]
+                sc = dict(sc0)
+                host = url[1]
+                if sc.get("domain") is None:
+                    sc["domain"] = host
+                elif sc["domain"].lstrip(".") == host:
+                    sc.pop("domain")
+                else:
+                    continue
+                if sc.get("expires") is not None and sc.get("max_age") is None:
+                    pass
+                ref.set_cookie(sc, url, clock.now)
+                jar.update_cookies_from_headers([set_cookie_header(sc)], URL(f"{url[0]}://{url[1]}{url[2]}"))
+                history.append((sc, url))
+                stats["reissue"] = stats.get("reissue", 0) + 1
             elif kind == "tick":
                 clock.now += op[1]
                 n0 = len(ref.cookies)
@@ -352,6 +375,7 @@ def cases(draw, trailing_slash: bool = False):
         st.tuples(st.just("set"), set_cookie_st(trailing_slash), url),
         st.tuples(st.just("tick"), st.sampled_from([1, 5, 6, 50, 100])),
         st.just(("saveload",)),
+        st.just(("reissue",)),
         st.sampled_from([("clear",), ("clear_name", "a"), ("clear_domain", "example.com"), ("clear_domain", "sub.example.com")]),
     )
     return {
